@@ -1,10 +1,137 @@
 package main
 
-// boundedResult: outcome of a bounded stand-in check (labelled bounded, never counted as proved).
+// Bounded stand-ins. Where a function cannot be brought within the verifier's reach, a bounded check of
+// the real code with a stated bound may stand in. It is labelled bounded in the output and in the
+// evidence and is never counted among the discharged obligations.
+//
+//   bounded[Cnn] <name>: pkg <dir> ; file <test file> ; run <TestName> ; bound <free text>
+//
+// The test file is injected into /repo/<dir> with `go test -overlay` (nothing is written to the
+// repository) and run once. It reports
+//   BOUNDED cases=<n> failures=<m>
+//   BOUNDED-FAIL[class=<label>]: <case and what differs>
+// A failure line is a violation unless known_findings.json lists its class for this stand-in.
+
+import (
+	"bytes"
+	"context"
+	"encoding/json"
+	"fmt"
+	"os"
+	"os/exec"
+	"path/filepath"
+	"regexp"
+	"strconv"
+	"strings"
+	"time"
+)
+
 type boundedResult struct {
 	Name     string
 	Bound    string
 	Cases    int
 	Failures []string
 	Err      string
+	Seconds  float64
+}
+
+type BoundedSpec struct {
+	Name  string
+	Pkg   string
+	File  string
+	Run   string
+	Bound string
+	Props []string
+	Where string
+}
+
+func parseBoundedSpec(rest string, props []string, where string) (*BoundedSpec, error) {
+	i := strings.Index(rest, ":")
+	if i < 0 {
+		return nil, fmt.Errorf("expected: bounded <name>: pkg ... ; file ... ; run ... ; bound ...")
+	}
+	s := &BoundedSpec{Name: strings.TrimSpace(rest[:i]), Props: props, Where: where}
+	for _, part := range strings.Split(rest[i+1:], ";") {
+		f := strings.Fields(part)
+		if len(f) < 2 {
+			continue
+		}
+		switch f[0] {
+		case "pkg":
+			s.Pkg = f[1]
+		case "file":
+			s.File = f[1]
+		case "run":
+			s.Run = f[1]
+		case "bound":
+			s.Bound = strings.TrimSpace(strings.TrimPrefix(strings.TrimSpace(part), "bound"))
+		default:
+			return nil, fmt.Errorf("unknown bounded part %q", f[0])
+		}
+	}
+	if s.Pkg == "" || s.File == "" || s.Run == "" || s.Bound == "" {
+		return nil, fmt.Errorf("bounded needs pkg, file, run and bound")
+	}
+	return s, nil
+}
+
+var boundedCasesRe = regexp.MustCompile(`BOUNDED cases=(\d+) failures=(\d+)`)
+
+func runBounded(sp *BoundedSpec) boundedResult {
+	res := boundedResult{Name: sp.Name, Bound: sp.Bound}
+	t0 := time.Now()
+	defer func() { res.Seconds = time.Since(t0).Seconds() }()
+	if _, err := os.Stat(sp.File); err != nil {
+		res.Err = "test file missing: " + sp.File
+		return res
+	}
+	dir, err := os.MkdirTemp("", "govc-bounded-")
+	if err != nil {
+		res.Err = err.Error()
+		return res
+	}
+	defer os.RemoveAll(dir)
+	target := filepath.Join("/repo", sp.Pkg, "zz_govc_bounded_"+sanitize(sp.Name)+"_test.go")
+	ov, _ := json.Marshal(map[string]map[string]string{"Replace": {target: sp.File}})
+	ovFile := filepath.Join(dir, "overlay.json")
+	if err := os.WriteFile(ovFile, ov, 0o644); err != nil {
+		res.Err = err.Error()
+		return res
+	}
+	ctx, cancel := context.WithTimeout(context.Background(), 10*time.Minute)
+	defer cancel()
+	cmd := exec.CommandContext(ctx, "go", "test", "-overlay", ovFile, "-vet=off", "-count=1", "-timeout", "540s", "-run", "^"+sp.Run+"$", ".")
+	cmd.Dir = filepath.Join("/repo", sp.Pkg)
+	cmd.Env = append(os.Environ(), "GOFLAGS=-mod=mod", "GOPROXY=off", "GOSUMDB=off", "GOTOOLCHAIN=local")
+	var out bytes.Buffer
+	cmd.Stdout = &out
+	cmd.Stderr = &out
+	runErr := cmd.Run()
+	text := out.String()
+	m := boundedCasesRe.FindStringSubmatch(text)
+	if m == nil {
+		res.Err = fmt.Sprintf("the stand-in did not report its case count (%v): %s", runErr, tail(text, 600))
+		return res
+	}
+	res.Cases, _ = strconv.Atoi(m[1])
+	for _, l := range strings.Split(text, "\n") {
+		if strings.HasPrefix(l, "BOUNDED-FAIL") {
+			res.Failures = append(res.Failures, l)
+		}
+	}
+	nf, _ := strconv.Atoi(m[2])
+	if nf != len(res.Failures) && nf > len(res.Failures) {
+		res.Failures = append(res.Failures, fmt.Sprintf("BOUNDED-FAIL[class=unlisted]: %d further failing cases not printed", nf-len(res.Failures)))
+	}
+	if res.Cases == 0 {
+		res.Err = "the stand-in ran no case (vacuous)"
+	}
+	return res
+}
+
+func tail(s string, n int) string {
+	if len(s) > n {
+		return s[len(s)-n:]
+	}
+	return s
 }
